@@ -28,6 +28,12 @@ import numpy as np
 from vf import lattice
 from vf.cli import WorkerResult
 
+
+def _gt(a, b):
+    """a > b that is also True when a is NaN (a silent NaN must never pass a tolerance test)."""
+    return ~(np.asarray(a) <= np.asarray(b))
+
+
 LEVEL = "exploration"
 RULE = (
     "product rule class x n x extra parameter x polynomial degree 0..nominal; one evaluation = one "
@@ -249,11 +255,11 @@ def _compare_def(res, tag, case, g, ref, n, c=1e4):
     for i in range(n):
         res.count(2)
         res.nontrivial()
-        if abs(pts[i] - fx[i]) > _tol(c, 1 + abs(fx[i])):
+        if _gt(abs(pts[i] - fx[i]), _tol(c, 1 + abs(fx[i]))):
             res.violation(f"{tag}:node-differs-from-definition",
                           f"{tag} n={n}: node {i} = {pts[i]!r}, definition gives {fx[i]!r}", dict(case, node=i))
             return
-        if abs(w[i] - fw[i]) > _tol(c, wscale):
+        if _gt(abs(w[i] - fw[i]), _tol(c, wscale)):
             res.violation(f"{tag}:weight-differs-from-definition",
                           f"{tag} n={n}: weight {i} = {w[i]!r}, definition gives {fw[i]!r} "
                           f"(max |dw| = {np.max(np.abs(w - fw)):.3e})", dict(case, node=i))
@@ -277,7 +283,7 @@ def _exactness(res, tag, case, g, degree, moment, weightfun=None, c=1e4):
             continue
         res.nontrivial()
         got = float(np.sum(w * vals))
-        if abs(got - ref) > _tol(c, scale + abs(ref)):
+        if _gt(abs(got - ref), _tol(c, scale + abs(ref))):
             res.violation(f"{tag}:not-exact:first-failing-degree=n{k - len(pts):+d}",
                           f"{tag} n={len(pts)}: x^{k} integrates to {got!r}, exact {ref!r} "
                           f"(nominal degree {degree})", dict(case, degree=k), error=abs(got - ref))
